@@ -23,6 +23,10 @@ HARNESSES = {
     "three-threads-lazy": ("nested", "lazy", False, [("from_dict", "n", "H"), ("to_dict", "n", "H"), ("from_dict", "n", "H")]),
 }
 _CODES = None
+_FINE = None
+# harnesses also explored with the finer scheduling points of sched.fine_lines() (every library line that reads or publishes
+# shared state), preemption bound 1
+FINE_QUICK = ("lazy-pack-vs-unpack", "two-dialects-unpack", "parent-vs-child", "two-formats-lazy", "disc-holder-vs-base-lazy")
 MAX_EXECS = 40000    # per unit; a unit that hits it is reported as capped (exhaustive: false)
 
 
@@ -32,7 +36,11 @@ def units(tier):
         three = len(spec[3]) == 3
         if tier == "quick":
             out.append(("sched", hid, 1, 0, 1))
+            if hid in FINE_QUICK:
+                out += [("sched", hid, 1, i, 2, "fine") for i in range(2)]
         else:
+            if not three:
+                out += [("sched", hid, 1, i, 4, "fine") for i in range(4)]
             bound = 1 if three else 2
             n = 4 if three else 32   # 32 shards keep a bound-2 shard far below UNIT_TIMEOUT on a loaded machine
             for i in range(n):
@@ -76,14 +84,34 @@ def _mk(hid):
     return make_bodies, judge
 
 
+def _fine():
+    global _FINE
+    if _FINE is None:
+        _FINE = sched.fine_lines()
+    return _FINE
+
+
 def run_unit(unit):
     global _CODES
     if _CODES is None:
         _CODES = sched.traced_code_objects()
-    _, hid, bound, shard, nshards = unit
+    _, hid, bound, shard, nshards = unit[:5]
+    fine = _fine() if len(unit) > 5 else None
     res = core.UnitResult()
     make_bodies, judge = _mk(hid)
-    out = sched.explore(make_bodies, judge, bound, _CODES, shard=(shard, nshards), max_execs=MAX_EXECS)
+    if fine is not None:
+        # warm the library's type-keyed lru_caches on one free-running execution, so that every controlled execution
+        # takes the same lines
+        bodies, f0 = make_bodies()
+        for b in bodies:
+            try:
+                b()
+            except Exception:    # noqa: BLE001
+                pass
+        f0.dispose()
+    out = sched.explore(make_bodies, judge, bound, _CODES, shard=(shard, nshards), max_execs=MAX_EXECS, fine=fine)
+    if fine is not None:
+        res.counters["fine_schedules"] += out["execs"]
     res.cases = out["execs"]
     res.transitions = out["execs"] * len(HARNESSES[hid][3])
     res.states = out["execs"]
@@ -117,5 +145,6 @@ def replay(case):
         _CODES = sched.traced_code_objects()
     unit = core.detuple(case["unit"])
     make_bodies, judge = _mk(unit[1])
-    results, trace, details = sched.replay_schedule(make_bodies, judge, list(case["schedule"]), _CODES)
+    results, trace, details = sched.replay_schedule(make_bodies, judge, list(case["schedule"]), _CODES,
+                                                    fine=_fine() if len(unit) > 5 else None)
     return [dict(sig="replay", clause=d[0], outcome="", case=case, detail=d[1]) for d in details]
